@@ -198,6 +198,16 @@ impl Ev {
         self.sets.lock().unwrap().get(set).map(|s| s.len()).unwrap_or(0)
     }
 
+    /// Number of members of a set that parse as integers above `min`.
+    pub fn set_members_above(&self, set: &str, min: u64) -> u64 {
+        self.sets
+            .lock()
+            .unwrap()
+            .get(set)
+            .map(|s| s.iter().filter(|m| m.parse::<u64>().map(|v| v > min).unwrap_or(false)).count() as u64)
+            .unwrap_or(0)
+    }
+
     pub fn extra(&self, key: &str, v: Value) {
         self.extra.lock().unwrap().insert(key.to_string(), v);
     }
